@@ -1056,7 +1056,7 @@ def main():
                 rep.violation("model:" + r2.violated, {"cex": [c[0] for c in r2.cex]})
             tlc.require_coverage(r2, ACTIONS_NOSBX, "AuditTrail_thorough_nosbx.cfg")
     # ---- small TLC runs: vacuity configs, counterexamples of weakened models, -simulate generation
-    nsim = (60, 20, 40) if quick else (400, 120, 300)
+    nsim = (60, 20, 40) if quick else (320, 100, 240)
     jobs = [] if a.skip_model else [("reach:" + x, ("AuditTrail", "AuditTrail_reach_%s.cfg" % x, {})) for x in REACH]
     jobs += [("weak:" + w, ("AuditTrail", "AuditTrail_weak_%s.cfg" % w, {})) for w in WEAK]
     jobs += [("gen:AuditTrail_gen.cfg", ("AuditTrail", "AuditTrail_gen.cfg",
@@ -1083,12 +1083,12 @@ def main():
             rep.extra.setdefault("weakened_model_counterexamples", {})[x] = {"found": len(r.printed), "replayed": len(sel)}
             tasks += [("audittrail", h, "cex:" + x, None) for h in sel]
         elif kind == "gen":
-            lim = {"AuditTrail_gen.cfg": 12 if quick else 150, "AuditTrail_gen_sharedsbx.cfg": 4 if quick else 40}[x]
+            lim = {"AuditTrail_gen.cfg": 12 if quick else 120, "AuditTrail_gen_sharedsbx.cfg": 4 if quick else 30}[x]
             sel = select(r.printed, lim, rng, at_shape, need=two)
             rep.extra.setdefault("simulated", {})[x] = {"generated": len(r.printed), "replayed": len(sel)}
             tasks += [("audittrail", h, "simulate:" + x, None) for h in sel]
         elif kind == "bbgen":
-            sel = select(r.printed, 8 if quick else 80, rng, bc.shape_of, need=two)
+            sel = select(r.printed, 8 if quick else 60, rng, bc.shape_of, need=two)
             rep.extra.setdefault("simulated", {})["BobBuild_c01_gen.cfg"] = {"generated": len(r.printed), "replayed": len(sel)}
             tasks += [("bobbuild", h, "bobbuild-simulate", rng.random() < 0.4) for h in sel]
         elif kind == "bbweak":
@@ -1100,7 +1100,7 @@ def main():
         gitseqs += [[x, y, z] for x in GIT_OPS for y in GIT_OPS for z in GIT_OPS
                     if x != "clean" and not (y == "clean" and x != "dirty")]
     rng.shuffle(gitseqs)
-    for ops in gitseqs[:3 if quick else 30] + [["pinned", "dirty", "clean"]] + ([] if quick else [["pinned", "dirty", "rebuild"]]):
+    for ops in gitseqs[:3 if quick else 24] + [["pinned", "dirty", "clean"]] + ([] if quick else [["pinned", "dirty", "rebuild"]]):
         tasks.append(("git", ops, "git-enumerated", None))
     # ---- (B) replay on the real code
     common.use_repo()
